@@ -30,6 +30,12 @@ Definition C16_full_statement : Prop :=
   stmt_policy is_state fuse_sw_pred /\
   stmt_run_equiv is_state fuse_sw_pred fuse_sw_guard fuse_sw_loopv.
 
+(* the statements below speak about `idents true true`: get_all_used_identifiers as the code computes it
+   now (both get_read_variables repairs of C08 present).  Fails to type-check if that changes. *)
+Theorem C16_identifier_sets : lang_lhs_sub_reads = true /\ lang_loop_bound_reads = true.
+Proof. exact (conj eq_refl eq_refl). Qed.
+Print Assumptions C16_identifier_sets.
+
 (* ids are unique in the fused phase whenever they were in the first method (any shape of the code) *)
 Theorem C16_ids_unique : forall pred clash a b l,
   fuse_stmts' pred clash a b = FOk l -> NoDup (map fid a) -> NoDup (map fid l).
